@@ -7,3 +7,8 @@ mod css_tree;
 mod env;
 mod scope;
 mod visitor;
+
+#[cfg(feature = "verif-hooks")]
+pub(crate) mod verif_reexport {
+    pub(crate) use super::bin_op::{add, cmp, div, mul, rem, single_eq, sub};
+}
